@@ -21,6 +21,7 @@ DECIDES = (
     "(C12.LOCKSTEP-FILTER); in assemble the deleted test dominates every list mutation of the loop body, and the is_assembled "
     "guards dominate the bodies of grade and backport (C12.DELETE-SKIP)."
     ' clear() also empties nothing that assemble() does not fill (deleted set, merged pairs) and resets whatever state assemble() assigns on the mesh (part of C12.CLEAR-COMPLETE); coordinate setters (Face.update) store private copies, so operations sharing a vertex do not share storage after backport (C12.BACKPORT-OWNS-POINTS).'
+    ' backport() is evaluated over a depot of multi-operation entities, so a pairing computed per entity instead of per operation is reported (part of C12.BACKPORT-MAP).'
 )
 NOT_DECIDED = "equality of the written files over arbitrary call histories."
 ASSUMPTIONS = ["GeometryList.add is a dict merge and therefore idempotent under re-assembly (stated exception)"]
